@@ -4,6 +4,6 @@ CONSTANTS
   MaxSet = 2
   MaxReq = 2
   Emitting = FALSE
-INVARIANTS LastPostedRules LoadedDefaults ExcludedNeverServed BlockedNameNeverServed SilentOnDatagram OthersServed ExceptedNameIsServed PresentationIrrelevant TypeIrrelevantForPlainPatterns AllowModeIgnoresDisallowed OnlyIdsAllowedExcludesAnonymous BlockModeOneMatchSuffices EmptyListsExcludeNobody EntrySpellingIrrelevant InvalidIdNeverServed
+INVARIANTS LastPostedRules LoadedDefaults ExcludedNeverServed BlockedNameNeverServed SilentOnDatagram OthersServed ExceptedNameIsServed HostSpellingIrrelevant PresentationIrrelevant TypeIrrelevantForPlainPatterns AllowModeIgnoresDisallowed OnlyIdsAllowedExcludesAnonymous BlockModeOneMatchSuffices EmptyListsExcludeNobody EntrySpellingIrrelevant InvalidIdNeverServed
 PROPERTIES DeniedMovesNothing ServedIsObserved SetListsMovesNothing
 VIEW NoHistory
